@@ -438,7 +438,7 @@ def handler_contract(op, extra_req=(), noreply=False, reply_extra='', want=True)
 NAME_ERR_SPLICE = None
 
 
-VERIFIED_LATER = set(os.environ.get('SRV_EXT', 'setxattr,ioctl').split(','))
+VERIFIED_LATER = set(os.environ.get('SRV_EXT', 'setxattr').split(','))
 
 
 def EXT(name):
@@ -667,7 +667,10 @@ impl<'a, S: BitmapSlice> ZeroCopyReader for ZcReader<'a, S> { }
                     assert(init_reply_is(out, a0, capable.bits, want.bits, hd0.unique, ok_reply(hd0.unique, out.sbytes().subrange(0, init_out_len(minor)), Seq::<u8>::empty())));
                 }''')]),
         Fn(SYNC, SRV, 'setxattr', requires=handler_contract('setxattr'), external_body=EXT('setxattr'), splices=[E0], props=['C01']),
-        Fn(SYNC, SRV, 'ioctl', requires=handler_contract('ioctl'), external_body=EXT('ioctl'), splices=[E0], props=['C01']),
+        Fn(SYNC, SRV, 'ioctl', requires=handler_contract('ioctl'), external_body=EXT('ioctl'), props=['C01'], canary=not EXT('ioctl'),
+           splices=[E0, ('^', 'after', 'proof { reveal(errno_reply); }'),
+                    ('buf.data = Some(&data[..size]);', 'after',
+                     'proof { assert(data@.subrange(0, size as int) =~= rem0.subrange(32, 32 + in_size as int)); }')]),
         Fn(SYNC, SRV, 'batch_forget', requires=handler_contract('batch_forget', noreply=True), external_body=EXT('batch_forget'), props=['C01'], canary=not EXT('batch_forget'),
            splices=[E0, ('^', 'after', 'proof { assert((1u32 << 20) == 0x10_0000u32) by (bit_vector); }'),
                     ('let mut requests = Vec::with_capacity(count as usize);', 'after', 'let ghost ctx0 = ctx;'),
